@@ -70,7 +70,7 @@ package haproxy
 
 // accepted answers of the runtime api
 //@ func cmdResponseOK
-//@   props C02
+//@   props C02 C11
 //@   pure
 //@   ensures setserver: cmd == "set server" ==> result == (response == "" || hasPrefix(response, "IP changed from ") || hasPrefix(response, "no need to change "))
 //@   ensures commit:    cmd == "commit ssl cert" ==> result == contains(response, "Success")
@@ -140,11 +140,12 @@ package haproxy
 // a backend pair: never accepted when endpoints were added beyond the slots,
 // nor when anything but ID/Dynamic/Endpoints differs
 //@ func (*dynUpdater).checkBackendPair
-//@   props C02 C11
+//@   props C02 C11 C12
 //@   ensures grow:  old(len(pair.old.Endpoints) < len(pair.cur.Endpoints)) ==> !result
 //@   ensures same:  result ==> calls(DeepEq) >= 1 && first(DeepEq)
 //@   loop 4 invariant mono: updated ==> calls(DeepEq) >= 1 && first(DeepEq)
 //@   loop 5 invariant mono: updated ==> calls(DeepEq) >= 1 && first(DeepEq)
+//@   loop 5 step enabled: updated ==> calls(EnableEP) == $head(calls(EnableEP)) || last(EnableEP)
 //@   at call execEnableEndpoint#1 assert cookie: !(curBack.Cookie.Preserve && $arg3.CookieValue != empty[i].CookieValue)
 //@   at call DeepEqual#1 assert masked: oldBackCopy.Name == pair.old.Name && oldBackCopy.Namespace == pair.old.Namespace && oldBackCopy.Port == pair.old.Port
 //@       && oldBackCopy.Paths == pair.old.Paths && oldBackCopy.Cookie == pair.old.Cookie && oldBackCopy.Resolver == pair.old.Resolver
@@ -260,7 +261,38 @@ package haproxy
 // C12 / C05 — the frontend maps are published to the model (c.frontend.Maps)
 // only after they were written: a failed write must leave the hosts "changed"
 // so that the retry writes them
+//@ count HostsChanged = (*types.Hosts).Changed
 //@ func (*config).WriteFrontendMaps#publish
 //@   props C12 C05
 //@   store Maps after writeMaps
+//@   at call CreateMaps#1 assert hosts-changed: old(c.frontend.Maps) == nil || (calls(HostsChanged) == 1 && last(HostsChanged))
+//@   lemma asked: old(c.frontend.Maps) != nil ==> calls(HostsChanged) == 1
+//@ end
+
+// C03 / C07 — strict-host: the catch-all entry of a host points to the root
+// backend of the default host, else to the default backend; it is left without
+// backend (404) only if there is no default backend at all
+//@ func (*config).SyncConfig#fallback
+//@   props C07 C03
+//@   at call AddPath#1 assert has-backend: back == nil ==> c.backends.DefaultBackend == nil
+//@ end
+
+// C05 / C11 — slots added by alignSlots flag the backend's shard, so the shard
+// file gets the servers the model has
+//@ count BChanged = (*types.Backends).BackendChanged
+//@ count AddEmpty = (*types.Backend).AddEmptyEndpoint
+//@ func (*dynUpdater).alignSlots#flags
+//@   props C05
+//@   assumes keyed: d.config != nil && backendsKeyed(d.config.backends)
+//@   loop 1 step flagged: calls(AddEmpty) > $head(calls(AddEmpty)) ==> calls(BChanged) == $head(calls(BChanged)) + 1
+//@   loop 2 invariant none: calls(AddEmpty) == $headof(1, calls(AddEmpty)) && calls(BChanged) == $headof(1, calls(BChanged))
+//@   loop 3 invariant slots: (changed || calls(AddEmpty) == $headof(1, calls(AddEmpty))) && calls(BChanged) == $headof(1, calls(BChanged))
+//@   loop 4 invariant slots: (changed || calls(AddEmpty) == $headof(1, calls(AddEmpty))) && calls(BChanged) == $headof(1, calls(BChanged))
+//@ end
+
+// C12 — a reload request that cannot be delivered is an error
+//@ count MasterSend = (socket.HAProxySocket).Send
+//@ func (*instance).reloadWorker
+//@   props C12
+//@   ensures delivered: result == nil ==> calls(MasterSend) >= 1 && last(MasterSend).1 == nil
 //@ end
